@@ -677,6 +677,15 @@ func (ev *evaluator) aggregate(name string, fn *cypher.FunctionInvocation, f *fr
 	case "collect":
 		out := make([]any, len(values))
 		copy(out, values)
+		if ev.opts.Observe != nil && !ev.opts.Observe.CollectOrderOpen {
+			for _, v := range values[min(1, len(values)):] {
+				if equivKey(v) != equivKey(values[0]) {
+					// two different values in one list: their order is the unspecified order of the row stream
+					ev.opts.Observe.CollectOrderOpen = true
+					break
+				}
+			}
+		}
 		return out, nil
 
 	case "sum", "avg":
